@@ -18,10 +18,14 @@ theorem mask_customer {i : Inst} {s : State} {a : Nat} (h0 : a ≠ 0) (hm : mask
     s.vis a = false ∧ s.vis 0 = false := by
   simpa [mask, h0] using hm
 
+/-- the mask's literal is 1.0: the requirement of the problem (extracted constant `1.0`) -/
+theorem maskReq_eq (i : Inst) : maskReq i = i.req := by
+  simp [maskReq, Params.pctspMaskPrizeConst]
+
 /-- what the mask says about an admitted depot visit -/
 theorem mask_depot {i : Inst} {s : State} (hm : mask i s 0 = true) :
     i.req ≤ s.tot ∨ visitedCustomers i s = i.n := by
-  simp only [mask, if_true, Params.pctspMaskPrizeCmp, Params.pctspMaskCountCmp, Cmp.eval, Cmp.evalNat,
+  simp only [mask, if_true, maskReq_eq, Params.pctspMaskPrizeCmp, Params.pctspMaskCountCmp, Cmp.eval, Cmp.evalNat,
     Bool.not_eq_true', Bool.and_eq_false_iff, decide_eq_false_iff_not] at hm
   have hle : visitedCustomers i s ≤ i.n := cnt_le _ _
   rcases hm with h | h
